@@ -18,6 +18,8 @@ def run_jobs(pid, tier, jobs, level="translation_validation", timeout_ms=None, w
     if not jobs:
         raise EngineError("no cases selected")
     timeout_ms = timeout_ms or (300000 if tier == "quick" else 900000)
+    if tier == "thorough":
+        os.environ.setdefault("VERIF_CROSSCHECK", "2")     # cvc5 re-decides two unsat verdicts per program
     t0 = time.time()
     results = req.run_cases(jobs, timeout_ms=timeout_ms)
     res = common.Result(pid, level)
@@ -29,6 +31,7 @@ def run_jobs(pid, tier, jobs, level="translation_validation", timeout_ms=None, w
     solver_s = 0.0
     queries = 0
     witnessed = 0
+    cross = collections.Counter()
     for r in results:
         case, cfgmap = by_name[r["case"]]
         if r["error"]:
@@ -41,6 +44,8 @@ def run_jobs(pid, tier, jobs, level="translation_validation", timeout_ms=None, w
         fam[r["family"]] += 1
         solver_s += r.get("solver_s", 0)
         queries += r.get("queries", 0)
+        for kx in ("checked", "agree", "cvc5_unknown"):
+            cross[kx] += r.get("cross", {}).get(kx, 0)
         if r.get("witness") == "sat":
             witnessed += 1
         elif r.get("witness") is not None:
@@ -92,6 +97,7 @@ def run_jobs(pid, tier, jobs, level="translation_validation", timeout_ms=None, w
         "queries": queries,
         "solver_time_s": round(solver_s, 1),
         "witness_nonvacuous_programs": witnessed,
+        "cvc5_cross_check": dict(cross),
         "samples": samples,
         "explanation": what,
         "bounds": "U-mode: every database over the program's constants + m pairwise-distinct symbolic 32-bit values; "
